@@ -216,7 +216,8 @@ class SymSet:
 
     def update(self, *others):
         for o in others:
-            for x in list(iter_any(o)):
+            # adding elements to a set is insensitive to the order in which they arrive: no order exploration
+            for x in list(o.elements() if getattr(o, "is_symset", False) else o):
                 self.add(x)
 
     def discard(self, x):
@@ -270,10 +271,17 @@ def iter_any(x):
         if n > SET_ORDER_LIMIT:
             set_order_skipped[0] += 1
             return elems
-        f = 1
-        for k in range(2, n + 1):
-            f *= k
-        return _perm(elems, core.EX.choice(f, "set-order"))
+        # CPython iterates an unmodified set object in the same order every time: one environment choice per
+        # (set object, size), remembered for the rest of the path
+        memo = core.EX.path_data.setdefault("set_orders", {})
+        key = (id(x), n)
+        ent = memo.get(key)
+        if ent is None or ent[0] is not x:
+            f = 1
+            for k in range(2, n + 1):
+                f *= k
+            ent = memo[key] = (x, core.EX.choice(f, "set-order"))
+        return _perm(elems, ent[1])
     return x
 
 
